@@ -71,6 +71,50 @@ def error_sites(facts, cg, within):
     return out
 
 
+_CONV = ("::into", "::from", "::to_string", "::to_owned", "::into_boxed_str", "::as_str", "::as_ref", "::clone", "::borrow", "::deref", "::into_string")
+
+
+def handed_in_param(o):
+    """index of the parameter when the origin is a message handed in by the caller as it is (`msg`, `&msg`, `msg.into()`,
+    `msg.to_string()` …), else None.  A projection out of a parameter (the payload of a matched enum) is not one."""
+    while isinstance(o, tuple) and o:
+        if o[0] == "ref":
+            o = o[1]
+        elif o[0] == "call" and o[1] and o[1].endswith(_CONV) and len(o[2]) == 1:
+            o = o[2][0]
+        else:
+            break
+    if isinstance(o, tuple) and o and o[0] == "param" and all(x == "*" for x in o[2]):
+        return o[1]
+    return None
+
+
+def message_sites(facts, cg, within, depth=3):
+    """error_sites, where a site inside a reporting helper that merely wraps the message its caller hands in is
+    replaced by the helper's call sites (the payload is then the caller's argument) — so the rules speak about where the
+    message is built, however many helpers pass it on"""
+    out = []
+    todo = [(s, depth) for s in error_sites(facts, cg, within)]
+    while todo:
+        s, d = todo.pop(0)
+        idx = handed_in_param(s["payload"])
+        if idx is None or d == 0 or "{closure" in s["fn"]:
+            out.append(s)
+            continue
+        callers = [(p, bb, t) for p, bb, t, cal, c in cg.call_sites(lambda c_: c_ == s["fn"], within=within)]
+        if not callers:
+            out.append(s)
+            continue
+        for p, bb, t in callers:
+            b = cg.body(p)
+            if idx - 1 >= len(t["args"]):
+                out.append(s)
+                continue
+            todo.append(({"fn": p, "bb": bb, "adt": s["adt"], "variant": s["variant"], "payload": b.origin(t["args"][idx - 1]),
+                          "sp": t.get("sp") or s["sp"], "body": b, "via": s.get("via", []) + [s["fn"]]}, d - 1))
+    return out
+
+
 def site_format(facts, site):
     """the format! that builds the payload of an emission site, if any"""
     b = site["body"]
